@@ -925,7 +925,70 @@ func (gs *groupState) checkCommits(admin *RawCli, live map[int]*gmember) {
 		// with a second member partitions move and the library filters
 		// what each call may commit; the value clause is judged on
 		// single-member groups only (the order clause always)
-		if len(want) == 0 || s.P.Knob("disable_autocommit", 0) == 0 || len(gs.members) != 1 {
+		if len(want) == 0 || s.P.Knob("disable_autocommit", 0) == 0 {
+			continue
+		}
+		if len(gs.members) != 1 {
+			// Several members: judged for the partitions this member KEPT -
+			// no revoke/lost callback of it named the partition since the
+			// last successful commit of it was invoked, the member was not
+			// fenced and is still there.
+			if gs.fencedAt != "" || brokerView == nil {
+				continue
+			}
+			lastCall := map[tpKey]*commitCall{}
+			for _, c := range calls {
+				if c.done && c.err == nil {
+					for k := range c.offsets {
+						lastCall[k] = c
+					}
+				}
+			}
+			view, live := views[client]
+			if !live {
+				continue
+			}
+			for k, o := range want {
+				c := lastCall[k]
+				kept, owned := true, false
+				for _, e := range gs.evs {
+					if e.member != client {
+						continue
+					}
+					for _, ek := range e.parts {
+						if ek != k {
+							continue
+						}
+						if e.seq < c.invokeSeq {
+							// owned when the commit was invoked: the last
+							// callback naming it before that was an assign
+							owned = e.kind == "assign-enter"
+						} else if e.kind != "assign-enter" {
+							kept = false
+						}
+					}
+					if e.kind == "closed" {
+						kept = false
+					}
+				}
+				if !kept || !owned {
+					continue
+				}
+				s.Count("c09.kept_partitions_judged", 1)
+				g, ok := brokerView[k]
+				if !ok || !allowed[k][g] {
+					s.Violf("C09/final/broker-value", "%s kept %s/%d; its last successful commit was offset %d, the coordinator holds %d (present=%v), which no later unconfirmed commit carried", client, k.t, k.p, o, g, ok)
+					continue
+				}
+				if g != o {
+					continue
+				}
+				if eo, ok := view[k.t][k.p]; !ok {
+					s.Violf("C09/final/client-view", "%s kept %s/%d and committed offset %d successfully (the coordinator holds it), but CommittedOffsets no longer lists the partition", client, k.t, k.p, o)
+				} else if eo.Offset != o {
+					s.Violf("C09/final/client-view", "%s: CommittedOffsets reports %d for kept partition %s/%d, the last successful commit (and the coordinator's value) is %d", client, eo.Offset, k.t, k.p, o)
+				}
+			}
 			continue
 		}
 		got := brokerView
